@@ -2049,4 +2049,7 @@ var benignOutput = map[string]bool{
 	"log/slog.Debug": true, "log/slog.Info": true, "log/slog.Warn": true,
 	"log/slog.DebugContext": true, "log/slog.InfoContext": true, "log/slog.WarnContext": true, "log/slog.ErrorContext": true,
 	"log/slog.String": true, "log/slog.Int": true, "log/slog.Any": true,
+	// a local bytes.Buffer / strings.Builder used to assemble text: contents are not modelled
+	"(*bytes.Buffer).WriteString": true, "(*bytes.Buffer).String": true, "(*bytes.Buffer).WriteByte": true, "(*bytes.Buffer).Write": true,
+	"(*strings.Builder).WriteString": true, "(*strings.Builder).String": true, "(*strings.Builder).WriteByte": true,
 }
